@@ -7,8 +7,8 @@ ASSUMPTIONS = [
 ]
 
 M = "a*+?()[]|\\.^$-{}1,:<>P"
-H09 = [r"(?P<n>a){2}", r"(?:x(?P<n>y)){1,2}", r"a+b", r"(a)|b", r"[a-c]x", r"a{1,2}", r"(?i)ab", r"\d+x", r"(?P<n>a)b", r"a\.b", r"^ab$", r"a|b|c", r"[^a]b", r"(a*)+b", r"x{2}y"]
-QUICK = [r"(?P<n>a){2}", r"a+b", r"(a)|b", r"\d+x"]
+H09 = [r"(?P<n>a)(?P<n>b)", r"(?P<n>a){2}", r"(?:x(?P<n>y)){1,2}", r"a+b", r"(a)|b", r"[a-c]x", r"a{1,2}", r"(?i)ab", r"\d+x", r"(?P<n>a)b", r"a\.b", r"^ab$", r"a|b|c", r"[^a]b", r"(a*)+b", r"x{2}y"]
+QUICK = [r"(?P<n>a)(?P<n>b)", r"(?P<n>a){2}", r"a+b", r"(a)|b", r"\d+x"]   # first entry: a group name declared twice
 
 
 def holes(p):
